@@ -121,6 +121,9 @@ type concReq struct {
 	Qname string `json:"qname"`
 	Qtype uint16 `json:"qtype"`
 	Class uint16 `json:"class"`
+	// Cookie: 16 hex digits of a DNS client cookie carried in an OPT ("" = no OPT): the client limiter in front of
+	// or behind the gate remembers cookies and answers a changed one with BADCOOKIE -- never to a denied source
+	Cookie string `json:"cookie,omitempty"`
 }
 
 type gateReplay struct {
@@ -322,6 +325,8 @@ func (c *concCfg) config(scratch string) *config.Config {
 		BlockListDir:  filepath.Join(scratch, "c17-blocklists"),
 		Directory:     scratch,
 		ReflexEnabled: true,
+		// the client limiter is on (generous budget): whatever it does for a source, it does behind the gate
+		ClientRateLimit: 600,
 	}
 	cfg.QueryTimeout.Duration = 10 * time.Second
 	cfg.AccessList = append([]string(nil), c.AccessList...)
@@ -413,6 +418,11 @@ func (rq *concReq) msg() *dns.Msg {
 	m.SetQuestion(rq.Qname, rq.Qtype)
 	m.Question[0].Qclass = rq.Class
 	m.Id = 0x1717
+	if rq.Cookie != "" {
+		m.SetEdns0(1232, false)
+		o := m.IsEdns0()
+		o.Option = append(o.Option, &dns.EDNS0_COOKIE{Code: dns.EDNS0COOKIE, Cookie: rq.Cookie})
+	}
 	return m
 }
 
@@ -1010,6 +1020,14 @@ func runDefaultConfig(res *vh.Result, in *gateInput, cn *conc, cc *concCfg, case
 						bq.Qname, bq.Qtype, bq.Class = b.name, b.qtype, b.class
 						judgeClient(res, e, cc, &bq, warm, nil)
 						res.Count("battery", 1)
+					}
+					// the same source with a client cookie, then with a different one (what the limiter's cookie
+					// memory turns into BADCOOKIE over UDP), then without: silence every time
+					for _, ck := range []string{"0011223344556677", "8899aabbccddeeff", "0011223344556677", ""} {
+						bq := rq
+						bq.Cookie = ck
+						judgeClient(res, e, cc, &bq, warm, nil)
+						res.Count("battery_cookie", 1)
 					}
 				}
 			}
